@@ -1,0 +1,67 @@
+//go:build verif
+
+// Hand-written contracts of the resharing rounds whose acceptance depends on
+// committee membership (the rest is generated: zz_contracts_proto_verif.go).
+
+package resharing
+
+//@ define rs2slot1(round, m) = (!isnil(m) && rsNew(round.ReSharingParameters) && istype(msgcontent(m), "*ecdsa/resharing.DGRound2Message1") && msgbcast(m))
+//@ define rs2slot2(round, m) = (!isnil(m) && rsOld(round.ReSharingParameters) && istype(msgcontent(m), "*ecdsa/resharing.DGRound2Message2") && msgbcast(m))
+// a slot counts as filled when the round accepts what is in it (which array a
+// type is filed under is StoreMessage's business)
+//@ define rs2acc(round, m) = (rs2slot1(round, m) || rs2slot2(round, m))
+//@ define rs2deliv(round, k) = ((rsOld(round.ReSharingParameters) ==> rs2acc(round, round.temp.dgRound2Message2s[k])) && (rsNew(round.ReSharingParameters) ==> rs2acc(round, round.temp.dgRound2Message1s[k])))
+
+//@ func (*round2).CanAccept
+//@   props C08 C06
+//@   requires !isnil(msg)
+//@   requires round != nil && round.round1 != nil && round.round1.base != nil && rsWF(round.ReSharingParameters)
+//@   ensures [C08.accepts-only-on-the-right-channel] result <==> (rs2slot1(round, msg) || rs2slot2(round, msg))
+
+//@ func (*round2).Update
+//@   props C08 C06
+//@   requires round != nil && round.round1 != nil && round.round1.base != nil && round.temp != nil && rsWF(round.ReSharingParameters)
+//@   requires [one-slot-per-committee-member] len(round.temp.dgRound2Message1s) == len(round.newOK) && len(round.temp.dgRound2Message2s) == len(round.newOK)
+//@   modifies round.newOK[*]
+//@   ensures [C08.outsider-is-an-error] (!rsOld(round.ReSharingParameters) && !rsNew(round.ReSharingParameters)) <==> result1 != nil
+//@   ensures [C08.ok-marks-exactly-the-peers-whose-messages-are-delivered] result1 == nil ==> (forall j in 0..len(round.newOK) :: (round.newOK[j] <==> (old(round.newOK[j]) || rs2deliv(round, j))))
+//@   ensures [C08.update-true-iff-nobody-awaited] result1 == nil ==> (result0 <==> (forall j in 0..len(round.newOK) :: round.newOK[j]))
+//@   loop 0 invariant rsOld(round.ReSharingParameters) && rsNew(round.ReSharingParameters)
+//@   loop 0 invariant forall k in 0..$iter :: (round.newOK[k] <==> (old(round.newOK[k]) || rs2deliv(round, k)))
+//@   loop 0 invariant forall k in $iter..len(round.newOK) :: (round.newOK[k] == old(round.newOK[k]))
+//@   loop 0 invariant ret <==> (forall k in 0..$iter :: round.newOK[k])
+//@   loop 1 invariant rsOld(round.ReSharingParameters) && !rsNew(round.ReSharingParameters)
+//@   loop 1 invariant forall k in 0..$iter :: (round.newOK[k] <==> (old(round.newOK[k]) || rs2deliv(round, k)))
+//@   loop 1 invariant forall k in $iter..len(round.newOK) :: (round.newOK[k] == old(round.newOK[k]))
+//@   loop 1 invariant ret <==> (forall k in 0..$iter :: round.newOK[k])
+//@   loop 2 invariant !rsOld(round.ReSharingParameters) && rsNew(round.ReSharingParameters)
+//@   loop 2 invariant forall k in 0..$iter :: (round.newOK[k] <==> (old(round.newOK[k]) || rs2deliv(round, k)))
+//@   loop 2 invariant forall k in $iter..len(round.newOK) :: (round.newOK[k] == old(round.newOK[k]))
+//@   loop 2 invariant ret <==> (forall k in 0..$iter :: round.newOK[k])
+
+//@ func (*DGRound1Message).UnmarshalECDSAPub
+//@   props C06 C17 C04
+//@   requires m != nil && !isnil(ec)
+//@   ensures [C17.announced-key-is-on-the-curve] result1 == nil ==> (result0 != nil && fresh(result0) && wfPoint(result0) && result0.curve == ec && oncurve(ec, px(result0), py(result0)) && px(result0) == beint(bytes(m.EcdsaPubX)) && py(result0) == beint(bytes(m.EcdsaPubY)))
+//@   ensures result1 != nil ==> result0 == nil
+
+// round 1: a new-committee member marks oldOK[j] when old member j's DGRound1Message
+// is there; the public key announced by old member 0 must agree with the one kept.
+//@ define rs1slot(m) = (!isnil(m) && acc_ecdsa_resharing_round1(m))
+//@ func (*round1).Update
+//@   props C08 C04 C06
+//@   requires round != nil && round.base != nil && round.temp != nil && round.save != nil && rsWF(round.ReSharingParameters)
+//@   requires [one-slot-per-committee-member] len(round.temp.dgRound1Messages) == len(round.oldOK)
+//@   requires [stored-key-wellformed] round.save.ECDSAPub != nil ==> wfPoint(round.save.ECDSAPub)
+//@   requires [store-files-round1-messages-by-type] forall k in 0..len(round.temp.dgRound1Messages) :: (!isnil(round.temp.dgRound1Messages[k]) ==> (msgfrom(round.temp.dgRound1Messages[k]) != nil && istype(msgcontent(round.temp.dgRound1Messages[k]), "*ecdsa/resharing.DGRound1Message") && cast(msgcontent(round.temp.dgRound1Messages[k]), "*ecdsa/resharing.DGRound1Message") != nil))
+//@   modifies round.oldOK[*], round.save.ECDSAPub
+//@   ensures [C08.not-a-receiver-in-this-round] !rsNew(round.ReSharingParameters) ==> (result0 && result1 == nil && (forall j in 0..len(round.oldOK) :: round.oldOK[j] == old(round.oldOK[j])))
+//@   ensures [C08.ok-marks-exactly-the-peers-whose-messages-are-delivered] (rsNew(round.ReSharingParameters) && result1 == nil) ==> (forall j in 0..len(round.oldOK) :: (round.oldOK[j] <==> (old(round.oldOK[j]) || rs1slot(round.temp.dgRound1Messages[j]))))
+//@   ensures [C08.update-true-only-if-nobody-awaited] (rsNew(round.ReSharingParameters) && result0) ==> (result1 == nil && (forall j in 0..len(round.oldOK) :: round.oldOK[j]))
+//@   ensures [C04.announced-key-never-replaced-by-a-different-one] (old(round.save.ECDSAPub) != nil && round.save.ECDSAPub != old(round.save.ECDSAPub)) ==> (round.save.ECDSAPub != nil && px(round.save.ECDSAPub) == old(px(round.save.ECDSAPub)) && py(round.save.ECDSAPub) == old(py(round.save.ECDSAPub)))
+//@   loop 0 invariant rsNew(round.ReSharingParameters)
+//@   loop 0 invariant forall k in 0..$iter :: (round.oldOK[k] <==> (old(round.oldOK[k]) || rs1slot(round.temp.dgRound1Messages[k])))
+//@   loop 0 invariant forall k in $iter..len(round.oldOK) :: (round.oldOK[k] == old(round.oldOK[k]))
+//@   loop 0 invariant ret ==> (forall k in 0..$iter :: round.oldOK[k])
+//@   loop 0 invariant round.save.ECDSAPub != nil ==> (wfPoint(round.save.ECDSAPub) && (old(round.save.ECDSAPub) != nil ==> (px(round.save.ECDSAPub) == old(px(round.save.ECDSAPub)) && py(round.save.ECDSAPub) == old(py(round.save.ECDSAPub)))))
+//@   loop 0 invariant old(round.save.ECDSAPub) != nil ==> round.save.ECDSAPub != nil
